@@ -9,10 +9,11 @@ if os.path.isdir(dd):
         if f.endswith(".json"):
             src["props"].update(json.load(open(os.path.join(dd, f))))
 props = [json.loads(l)["id"] for l in open(os.path.join(HERE, "..", "properties.jsonl"))]
+ready = set(open(os.path.join(HERE, "ready.txt")).read().split())
 checks, na = [], []
 for pid in props:
     e = src["props"].get(pid)
-    if e and e.get("claimed"):
+    if e and e.get("claimed") and pid in ready:
         checks.append({
             "property_id": pid,
             "quick_cmd": "./check %s --tier quick" % pid,
